@@ -911,3 +911,31 @@ def g16_symmetric_arms(ctx: Ctx, scope, rule="G16"):
                        "" if a == b else f"one arm stores {sorted(a)}, the other {sorted(b)}: {sorted(a ^ b)} keeps the value of the previous mode",
                        ctx.prog.loc(f, x), x)
     return n
+
+
+# --------------------------------------------------------------------------- G17  keyword receives its namesake
+# `f(..., eval_update=train_update)` inside a function that itself has a parameter `eval_update`: the keyword was handed a
+# sibling of its namesake (copy / paste of the line above).  Fires only when both names are parameters of the enclosing
+# function (or of the function it is nested in), so ordinary renaming at a call boundary is not touched.
+G17_EXEMPT = {
+    ("holt_linear_smoothing", "alpha", "beta"): "the trend series is smoothed with its own factor beta: exponential_smoothing's `alpha` is the generic smoothing factor",
+}
+
+
+def g17_keyword_namesake(ctx: Ctx, scope, rule="G17"):
+    n = 0
+    for f in scope:
+        a = f.node.args
+        params = {x.arg for x in a.posonlyargs + a.args + a.kwonlyargs}
+        for c in ast.walk(f.node):
+            if not isinstance(c, ast.Call):
+                continue
+            for k in c.keywords:
+                if k.arg and isinstance(k.value, ast.Name) and k.arg in params and k.value.id in params:
+                    n += 1
+                    ok = k.value.id == k.arg
+                    why = G17_EXEMPT.get((f.name, k.arg, k.value.id))
+                    ctx.ob(rule, f"{f.short}: keyword `{k.arg}=` of `{ast.unparse(c.func)[:40]}` receives the parameter of the same name", ok or why is not None,
+                           (f"exempt: {why}" if why else f"`{k.arg}={k.value.id}`: the enclosing function has its own parameter `{k.arg}`, which is bypassed") if not ok else "",
+                           ctx.prog.loc(f, c), c)
+    return n
